@@ -13,6 +13,8 @@ CONSTANTS
   LifecycleFirst = @@LF@@
   SkipLocalTarget = FALSE
   EvictingLookup = FALSE
+  HonourContext = FALSE
+  RejectSeenIds = FALSE
   Emit = TRUE
   Only = "@@ONLY@@"
 INIT Init
